@@ -17,6 +17,13 @@ func indexByDateShape(rel string) func() string {
 				loop, tail = rs, fd.Body.List[k+1:]
 				break
 			}
+			if fs, ok := st.(*ast.ForStmt); ok {
+				// the index form `for i := 0; i < len(tlc.intervals); i++`
+				if r, ok := (&tr{}).indexLoopAsRange(fs); ok && norm(src(r.X)) == "tlc.intervals" {
+					loop, tail = r, fd.Body.List[k+1:]
+					break
+				}
+			}
 		}
 		if loop == nil {
 			panic(bail{rel + ": IndexByDate has no top-level range loop over tlc.intervals"})
